@@ -114,7 +114,7 @@ Definition list_building_pure (D : data) : Prop :=
     (forall l w0, d_mklist D l w0 = (mkl l, w0)) /\ (forall l w0, d_tuple_of_list D (mkl l) w0 = d_mktuple D l w0).
 (* the truth of a boolean is that boolean, without effect (implied by pure_truth) *)
 Definition bool_truth (D : data) : Prop := forall b w0, d_truth D (d_const D (KBool b)) w0 = (POk b, w0).
-(* with the [exception] hook selected, handlers carry neither type nor name (see Py/Sem.v, tk_hs) *)
+(* with the [exception] hook selected, the type of a handler is absent or a (non-local) name (see Py/Sem.v, tk_hs) *)
 Definition tk_prog (H : list string) (p : program) : bool :=
   forallb (fun fd => tk_ss H (f_body fd)) (p_funs p) && tk_ss H (p_main p).
 
@@ -166,7 +166,7 @@ Section Transparency.
 End Transparency.
 
 (* ================================================================ what a hook receives does not depend on the other hooks *)
-(* with different selections on the exception hook, handlers carry neither type nor name (see Py/Sem.v, g8_hs) *)
+(* with different selections on the exception hook, the type of a handler is absent or a (non-local) name (Py/Sem.v, g8_hs) *)
 Definition g8_prog (H1 H2 : list string) (p : program) : bool :=
   forallb (fun fd => g8_ss H1 H2 (f_body fd)) (p_funs p) && g8_ss H1 H2 (p_main p).
 (* h is the hook of a construct: neither a generic name nor an execution-level hook *)
